@@ -100,10 +100,39 @@ class Canon(ast.NodeTransformer):
         for k, st in enumerate(stmts):
             new = self._while_to_for(st, stmts[k + 1:]) if isinstance(st, ast.While) else None
             out.append(new or st)
+        return self._search_loops(out)
+
+    @staticmethod
+    def _search_loops(stmts):
+        """for T in S: if C: return True / return False    ==    return any(C for T in S)     (and the negated form): both test the
+        truth of C for the items in turn and stop at the first hit"""
+        def boolconst(n):
+            return isinstance(n, ast.Return) and isinstance(n.value, ast.Constant) and type(n.value.value) is bool
+        out, k = [], 0
+        while k < len(stmts):
+            st = stmts[k]
+            nxt = stmts[k + 1] if k + 1 < len(stmts) else None
+            if isinstance(st, ast.For) and not st.orelse and len(st.body) == 1 and isinstance(st.body[0], ast.If) \
+                    and not st.body[0].orelse and len(st.body[0].body) == 1 and boolconst(st.body[0].body[0]) and boolconst(nxt) \
+                    and st.body[0].body[0].value.value != nxt.value.value \
+                    and not any(isinstance(n, (ast.Yield, ast.YieldFrom, ast.Await, ast.NamedExpr)) for n in ast.walk(st)):
+                gen = ast.GeneratorExp(elt=st.body[0].test, generators=[ast.comprehension(target=st.target, iter=st.iter, ifs=[], is_async=0)])
+                call = ast.Call(func=ast.Name(id='any', ctx=ast.Load()), args=[gen], keywords=[])
+                val = call if st.body[0].body[0].value.value else ast.UnaryOp(op=ast.Not(), operand=call)
+                out.append(ast.fix_missing_locations(ast.copy_location(ast.Return(value=val), st)))
+                k += 2
+                continue
+            out.append(st)
+            k += 1
         return out
 
     def _while_to_for(self, w, following):
         t = w.test
+        guard = None
+        if isinstance(t, ast.BoolOp) and isinstance(t.op, ast.And) and len(t.values) >= 2 and not w.orelse:
+            # while i < N and C: body; i += c    ==    for i in range(i, N, c): if not C: break / body
+            guard = t.values[1] if len(t.values) == 2 else ast.BoolOp(op=ast.And(), values=list(t.values[1:]))
+            t = t.values[0]
         if not (isinstance(t, ast.Compare) and len(t.ops) == 1 and w.body):
             return None
         a, b, op = t.left, t.comparators[0], type(t.ops[0])
@@ -180,6 +209,22 @@ class Canon(ast.NodeTransformer):
                 if isinstance(n, ast.Name) and n.id == i:
                     if isinstance(n.ctx, ast.Load):
                         return None
+        if getattr(self, '_fn_stack', None):
+            # ... nor anywhere else in the function (an enclosing block after the loop, an enclosing loop's next round, a closure)
+            def reads(n):
+                if n is w:
+                    return False
+                if isinstance(n, ast.Name) and n.id == i and isinstance(n.ctx, ast.Load):
+                    return True
+                if isinstance(n, (ast.ListComp, ast.SetComp, ast.DictComp, ast.GeneratorExp)) and any(
+                        isinstance(x, ast.Name) and x.id == i for g in n.generators for x in ast.walk(g.target)):
+                    return reads(n.generators[0].iter)      # a comprehension's own variable of that name
+                return any(reads(c) for c in ast.iter_child_nodes(n))
+            if reads(self._fn_stack[-1]):
+                return None
+        if guard is not None:
+            brk = ast.copy_location(ast.If(test=ast.UnaryOp(op=ast.Not(), operand=guard), body=[ast.copy_location(ast.Break(), w)], orelse=[]), w)
+            body = [brk] + list(body)
         stop = b
         if op is ast.LtE:
             stop = ast.BinOp(left=b, op=ast.Add(), right=ast.Constant(value=1))
@@ -188,6 +233,77 @@ class Canon(ast.NodeTransformer):
         rng = ast.Call(func=ast.Name(id='range', ctx=ast.Load()), args=[ast.Name(id=i, ctx=ast.Load()), stop, ast.Constant(value=step)], keywords=[])
         new = ast.For(target=ast.Name(id=i, ctx=ast.Store()), iter=rng, body=body, orelse=w.orelse, type_comment=None)
         return ast.copy_location(new, w)
+
+    @staticmethod
+    def _own_breaks(stmts, out, ok):
+        """collect the `break`s of THIS loop in stmts; ok[0] becomes False when one sits inside try / with (where moving code changes
+        which handlers cover it)"""
+        for st in stmts:
+            if isinstance(st, ast.Break):
+                out.append(st)
+            elif isinstance(st, (ast.For, ast.While)):
+                Canon._own_breaks(st.orelse, out, ok)       # a break in a nested loop's else belongs to this loop
+            elif isinstance(st, ast.If):
+                Canon._own_breaks(st.body, out, ok)
+                Canon._own_breaks(st.orelse, out, ok)
+            elif isinstance(st, (ast.Try, ast.With)) or (hasattr(ast, 'TryStar') and isinstance(st, ast.TryStar)) or isinstance(st, ast.Match):
+                tmp = []
+                for fld in ('body', 'orelse', 'finalbody', 'handlers', 'cases'):
+                    for x in getattr(st, fld, []) or []:
+                        Canon._own_breaks(getattr(x, 'body', [x]) if not isinstance(x, ast.stmt) else [x], tmp, ok)
+                if tmp:
+                    ok[0] = False
+
+    def _replace_breaks(self, stmts, cont):
+        import copy as _copy
+        out = []
+        for st in stmts:
+            if isinstance(st, ast.Break):
+                out.extend(_copy.deepcopy(cont))
+                return out                                   # nothing after a break runs
+            if isinstance(st, (ast.For, ast.While)):
+                st.orelse = self._replace_breaks(st.orelse, cont)
+            elif isinstance(st, ast.If):
+                st.body = self._replace_breaks(st.body, cont)
+                st.orelse = self._replace_breaks(st.orelse, cont)
+            out.append(st)
+        return out
+
+    def _break_to_exit(self, body):
+        """At the top level of a function:   loop: ... break ...  / else: E (always leaves the function) / R      ==
+        loop: ... R; return ... / E   -  the code after the loop runs only after a break, so it is written where the breaks are
+        (R short, at most two breaks, none of them inside try / with)."""
+        for k, st in enumerate(body):
+            if not isinstance(st, (ast.For, ast.While)):
+                continue
+            forever = isinstance(st, ast.While) and isinstance(st.test, ast.Constant) and bool(st.test.value) and not st.orelse
+            if not forever and not (st.orelse and isinstance(st.orelse[-1], (ast.Raise, ast.Return))):
+                continue            # (a `while True` loop is left through its breaks only)
+            rest = list(body[k + 1:])
+            if not rest or len(rest) > 4 or any(isinstance(n, (ast.FunctionDef, ast.ClassDef, ast.Lambda, ast.For, ast.While, ast.Try, ast.With))
+                                                for r in rest for n in ast.walk(r)):
+                continue
+            brk, ok = [], [True]
+            self._own_breaks(st.body, brk, ok)
+            if not ok[0] or not (1 <= len(brk) <= 2):
+                continue
+            if not isinstance(rest[-1], (ast.Return, ast.Raise)):
+                rest = rest + [ast.copy_location(ast.Return(value=None), rest[-1])]
+            st.body = self._replace_breaks(st.body, rest)
+            els, st.orelse = st.orelse, []
+            return list(body[:k]) + [st] + list(els)
+        return body
+
+    def visit_FunctionDef(self, node):
+        if not hasattr(self, '_fn_stack'):
+            self._fn_stack = []
+        self._fn_stack.append(node)
+        try:
+            node = self.generic_visit(node)
+        finally:
+            self._fn_stack.pop()
+        node.body = self._break_to_exit(node.body)
+        return node
 
     def generic_visit(self, node):
         node = super().generic_visit(node)
